@@ -147,6 +147,7 @@ def run(tier, seed, which="C01"):
         if not r.ok:
             raise kv.Broken("MC_Weave (%s) violates its own invariants: %s" % (cfg, r.errors[:2]))
     kv.tlc_mc("MC_Weave", "MC_Weave_twin.cfg", wd, expect_violation=True)
+    kv.mc_aligner(V, wd, "c01", tier)
     # --- M3: recorded executions
     scs = make_scenarios(rng, tier)
     fmts = ["fasta", "msf", "clu"]
